@@ -2,6 +2,7 @@ package main
 
 import (
 	"go/ast"
+	"go/constant"
 	"go/token"
 	"go/types"
 	"reflect"
@@ -629,7 +630,7 @@ func rulesC04(c *Ctx) {
 		c.Pin("subscriptions/listen openers", m, 2)
 	})
 
-	c.Import("R-C04-13", "the request a cancellation names is found whatever its id: the requestId of notifications/cancelled is decoded from its raw text (an id beyond 2^53 that went through float64 names a neighbour — the wrong handler is cancelled, the right one keeps running)", "C19", "R-C19-1", func(k string) bool { return strings.HasPrefix(k, "Preempt:") })
+	c.Rule("R-C04-13", "the request a cancellation names is found whatever its id: the requestId of notifications/cancelled is decoded from its raw text (an id beyond 2^53 that went through float64 names a neighbour — the wrong handler is cancelled, the right one keeps running); where a float64 fast path exists it is evaluated at the first inexact magnitudes and must not be taken there)", func() { c04RequestIDExact(c) })
 	c.Import("R-C04-12", "a cancellation names exactly one in-flight request: a refused duplicate of an in-flight id does not take over (and later retire) the original's table entry, so the original stays cancellable", "C02", "R-C02-3", nil)
 	c.Import("R-C04-7", "cancelling one call disturbs no other: the cancellation notice is a valid message of the protocol version in use, so the peer does not answer it with an error that the transport treats as the end of the session", "C12", "R-C12-7", nil)
 
@@ -953,4 +954,167 @@ func ctxAliveAtom(f *Func, a Atom, ctxP *types.Var) bool {
 		sel, ok := ast.Unparen(ce.Fun).(*ast.SelectorExpr)
 		return ok && sel.Sel.Name == "Err" && f.ObjOf(sel.X) == types.Object(ctxP)
 	})
+}
+
+// c04RequestIDExact decides Preempt:requestId-exact (the Preempt part of R-C19-1, generalised).  Without a MakeID call in
+// the preempter the id must come from one DecodeID call, as before.  With a MakeID call whose argument may hold a
+// float64 (a fast path for ids float64 represents exactly), the function's graph is evaluated under the valuation "the
+// decoded requestId is a float64 of magnitude m" for the first magnitudes at which float64 stops being exact
+// (2^53 itself is the image of 2^53 and of 2^53+1): MakeID must be unreachable there and DecodeID reachable.
+func c04RequestIDExact(c *Ctx) {
+	pre := c.Fn(pM, "canceller", "Preempt")
+	decodeID := c.FnObj(pJ, "", "DecodeID")
+	makeID := c.FnObj(pJ, "", "MakeID")
+	g := pre.Graph()
+	nDec := len(pre.CallsIn(pre.Body, decodeID, false))
+	var floaty []*ast.CallExpr
+	for _, call := range pre.CallsIn(pre.Body, makeID, false) {
+		if len(call.Args) != 1 {
+			continue
+		}
+		if b, isB := pre.TypeOf(call.Args[0]).Underlying().(*types.Basic); isB && b.Info()&types.IsFloat == 0 {
+			continue // a string or an integer: nothing is lost
+		}
+		floaty = append(floaty, call)
+	}
+	const key = "Preempt:requestId-exact"
+	if len(floaty) == 0 {
+		c.Check(nDec == 1 && len(pre.CallsIn(pre.Body, makeID, false)) == 0, key, pre, nil, "the requestId of notifications/cancelled is decoded with DecodeID from its raw text")
+		return
+	}
+	isFloatVar := func(o types.Object) bool {
+		v, ok := o.(*types.Var)
+		if !ok || v.IsField() {
+			return false
+		}
+		b, isB := v.Type().Underlying().(*types.Basic)
+		return isB && b.Info()&types.IsFloat != 0
+	}
+	// the comma-ok results of assertions to float64
+	okVars := map[types.Object]bool{}
+	for _, w := range Writes(pre.Body, false) {
+		as, isAs := w.Stmt.(*ast.AssignStmt)
+		if !isAs || len(as.Lhs) != 2 || len(as.Rhs) != 1 {
+			continue
+		}
+		if ta, isTA := ast.Unparen(as.Rhs[0]).(*ast.TypeAssertExpr); isTA && ta.Type != nil {
+			if b, isB := pre.TypeOf(ta.Type).Underlying().(*types.Basic); isB && b.Info()&types.IsFloat != 0 {
+				if o := pre.ObjOf(as.Lhs[1]); o != nil {
+					okVars[o] = true
+				}
+			}
+		}
+	}
+	mentionsFloat := func(e ast.Expr) bool {
+		found := false
+		ast.Inspect(e, func(n ast.Node) bool {
+			if id, ok := n.(*ast.Ident); ok && pre.ObjOf(id) != nil && isFloatVar(pre.ObjOf(id)) {
+				found = true
+			}
+			return true
+		})
+		return found
+	}
+	var valueAt func(e ast.Expr, m constant.Value) constant.Value
+	valueAt = func(e ast.Expr, m constant.Value) constant.Value {
+		e = ast.Unparen(e)
+		if tv, ok := pre.Info().Types[e]; ok && tv.Value != nil {
+			return constant.ToFloat(tv.Value)
+		}
+		switch x := e.(type) {
+		case *ast.Ident:
+			if o := pre.ObjOf(x); o != nil && isFloatVar(o) {
+				return m
+			}
+		case *ast.UnaryExpr:
+			if v := valueAt(x.X, m); v != nil && v.Kind() != constant.Unknown && (x.Op == token.SUB || x.Op == token.ADD) {
+				return constant.UnaryOp(x.Op, v, 0)
+			}
+		case *ast.CallExpr:
+			if len(x.Args) != 1 {
+				return nil
+			}
+			if tv, ok := pre.Info().Types[x.Fun]; ok && tv.IsType() {
+				if b, isB := tv.Type.Underlying().(*types.Basic); isB && b.Info()&types.IsFloat != 0 {
+					return valueAt(x.Args[0], m)
+				}
+				return nil
+			}
+			if fn := pre.Callee(x); fn != nil && fn.FullName() == "math.Abs" {
+				if v := valueAt(x.Args[0], m); v != nil && v.Kind() != constant.Unknown {
+					if constant.Sign(v) < 0 {
+						return constant.UnaryOp(token.SUB, v, 0)
+					}
+					return v
+				}
+			}
+		}
+		return nil
+	}
+	two53 := constant.Shift(constant.MakeInt64(1), token.SHL, 53)
+	mags := []constant.Value{
+		constant.ToFloat(two53),
+		constant.ToFloat(constant.BinaryOp(two53, token.ADD, constant.MakeInt64(2))),
+		constant.ToFloat(constant.Shift(constant.MakeInt64(1), token.SHL, 62)),
+	}
+	for _, m := range append([]constant.Value{}, mags...) {
+		mags = append(mags, constant.UnaryOp(token.SUB, m, 0))
+	}
+	opaque := false
+	viaFloat, noRaw := "", false
+	for _, m := range mags {
+		leaf := func(e ast.Expr) tri {
+			e = ast.Unparen(e)
+			if id, isID := e.(*ast.Ident); isID {
+				if okVars[pre.ObjOf(id)] {
+					return triTrue
+				}
+				return triUnknown
+			}
+			if b, isB := e.(*ast.BinaryExpr); isB {
+				switch b.Op {
+				case token.EQL, token.NEQ, token.LSS, token.LEQ, token.GTR, token.GEQ:
+					if !mentionsFloat(b) {
+						return triUnknown
+					}
+					l, r := valueAt(b.X, m), valueAt(b.Y, m)
+					if l != nil && r != nil && l.Kind() != constant.Unknown && r.Kind() != constant.Unknown {
+						if constant.Compare(l, b.Op, r) {
+							return triTrue
+						}
+						return triFalse
+					}
+				}
+			}
+			if mentionsFloat(e) {
+				opaque = true
+			}
+			return triUnknown
+		}
+		reach := g.ReachUnder(leaf, nil)
+		for _, call := range floaty {
+			if v := g.VertexOf(call); v >= 0 && reach[v] && viaFloat == "" {
+				viaFloat = "MakeID(" + exprStr(call.Args[0]) + ") is reached for a float64 requestId of value " + m.ExactString()
+			}
+		}
+		rawSeen := false
+		for _, call := range pre.CallsIn(pre.Body, decodeID, false) {
+			if v := g.VertexOf(call); v >= 0 && reach[v] {
+				rawSeen = true
+			}
+		}
+		if !rawSeen {
+			noRaw = true
+		}
+	}
+	switch {
+	case (viaFloat != "" || noRaw) && opaque:
+		c.Undecided(key, pre, nil, "the requestId goes through MakeID behind a test on the float64 value that this rule cannot evaluate: whether every id at or beyond 2^53 is decoded from its raw text is not decided here")
+	case viaFloat != "":
+		c.Fail(key, pre, floaty[0], "an id float64 cannot tell from its neighbour is taken from the float64: %s (2^53 is what both 2^53 and 2^53+1 decode to, so the cancellation names the wrong request)", viaFloat)
+	case noRaw:
+		c.Fail(key, pre, nil, "no DecodeID of the raw requestId is reached for ids at or beyond 2^53")
+	default:
+		c.Ok(key, pre, nil, "the requestId is taken from its float64 form only where that is exact (|id| < 2^53); every other numeric id is decoded with DecodeID from its raw text")
+	}
 }
